@@ -29,11 +29,28 @@ type Server[StateT any] struct {
 func (s *Server[StateT]) Serve(ln net.Listener) error {
 	defer ln.Close()
 
+	const maxAcceptDelay = time.Second
+
+	var acceptDelay time.Duration // how long to sleep on transient accept failure
+
 	for {
 		conn, err := ln.Accept()
 		if err != nil {
+			// transient failures (i.e. descriptors exhausted by too many clients) must not stop the server
+			var ne net.Error
+			if errors.As(err, &ne) && ne.Temporary() { //nolint:staticcheck // same as in net/http
+				acceptDelay = min(max(2*acceptDelay, 5*time.Millisecond), maxAcceptDelay)
+
+				s.Logger.Error("Accept failed, retrying", logutil.ErrorAttr(err), slog.Duration("delay", acceptDelay))
+				time.Sleep(acceptDelay)
+
+				continue
+			}
+
 			return fmt.Errorf("accept failed: %w", err)
 		}
+
+		acceptDelay = 0
 
 		go s.serveConn(conn)
 	}
